@@ -88,7 +88,7 @@ def c03(obj, kind, case, cfg, rec):
                     out = obj.transform(Xp)[f].tolist()
                     mono = all(a <= b for a, b in zip(out, out[1:]))
                     # right-closed intervals: a boundary belongs to the lower bucket, its successor float to the next one
-                    step = all(out[probes.index(x)] == out[probes.index(float(np.nextafter(x, -np.inf)))] for x in fin) and \
+                    step = all(out[probes.index(x)] == out[probes.index(float(np.nextafter(x, -np.inf)))] for i_, x in enumerate(fin) if i_ == 0 or float(np.nextafter(x, -np.inf)) > fin[i_ - 1]) and \
                         all(out[probes.index(x)] < out[probes.index(float(np.nextafter(x, np.inf)))] for x in fin)
                     rec('C03:transform#post.non_decreasing_step_function', mono and step, 'feature %s: probes %r -> %r' % (f, probes, out), dict(feature=f))
                 except AssertionError:
@@ -515,12 +515,18 @@ def _one(arg):
                 e = rng.choice(cands); eo.update_discretizer(*e); done.append([None if isnan(x) else x for x in e])
             if done:
                 rec_e = lambda c, ok, m, ex=None: rec(c + '.after_edit', ok, m, dict(ex or {}, edits=done))
-                if 'C04' in props: c04(eo, kind, case, cfg, rec_e)
+                if 'C04' in props:
+                    c04(eo, kind, case, cfg, rec_e)
+                    try: c04(reload(eo, kind), kind, case, cfg, lambda c, ok, m, ex=None: rec(c + '.after_edit.reloaded_from_json', ok, m, dict(ex or {}, edits=done)))
+                    except Exception: recs.append(('C04:transform#post.training_rows_accepted.after_edit.reloaded_from_json', False, lit, 'reload of the edited object raised ' + traceback.format_exc()[-300:]))
                 if 'C06' in props: c06(eo, kind, case, cfg, rec_e, rng)
                 if 'C05' in props: c05(eo, kind, case, dict(cfg, min_freq_edited=True), rec_e, rng)
                 if 'C16' in props: c16(eo, kind, case, cfg, lambda c, ok, m, ex=None: rec_e(c, ok, m, ex) if 'history' not in c else None)
         except Exception as e:
             recs.append(('X:battery_crash', False, lit, 'edited-object clauses crashed: %s' % traceback.format_exc()[-600:]))
+    if 'C04' in props and kind != 'MulticlassCarver':
+        r2 = outcome(lambda: obj.fit(case['X'], case['y']))
+        if r2[0] == 'reject': c04(obj, kind, case, cfg, lambda c, ok, m, ex=None: rec(c + '.after_refused_second_fit', ok, m, ex))
     if 'C05' in props:
         try: c05(reload(obj, kind), kind, case, cfg, lambda c, ok, m, e=None: rec(c + '.reloaded_from_json', ok, m, e), rng, ref_obj=obj)
         except Exception: recs.append(('X:battery_crash', False, lit, 'C05 on the reloaded object crashed: ' + traceback.format_exc()[-500:]))
@@ -539,7 +545,8 @@ def direct_objects(rng, n):
     """BaseDiscretizer objects built directly from hand-made values_orders (boundaries that differ only beyond 4 significant digits, tiny / huge magnitudes,
     numeric-valued categories) -- no fit of data involved"""
     out = []
-    pools = [[1.00001, 1.00002, 1.00003], [202301.0, 202302.0, 202303.0, 202312.0], [1e-300, 1e-9, 1.0, 1e9, 1e300], [0.1, 0.2, 0.30000000000000004], [-5.0, 0.0, 5.0], [1.5]]
+    one_ = 1.0; n1 = float(np.nextafter(one_, 2)); n2 = float(np.nextafter(n1, 2))
+    pools = [[one_, n1, n2], [1.00001, 1.00002, 1.00003], [202301.0, 202302.0, 202303.0, 202312.0], [1e-300, 1e-9, 1.0, 1e9, 1e300], [0.1, 0.2, 0.30000000000000004], [-5.0, 0.0, 5.0], [1.5]]
     for i in range(n):
         qs = pools[i % len(pools)]; cats = rng.choice([['a', 'b', 'c'], ['x', '1', '2.5'], ['low', 'high']])
         for od in ('float', 'str'):
